@@ -54,8 +54,8 @@ Proof. intros G l WF NOK E.
   split.
   - intros T Cur. pose proof (upgrade_plan_result G WF AC NOK T Cur) as H.
     destruct (upgrade_plan G T Cur) as [p|e]; [split; discriminate|]. destruct e; try contradiction; split; discriminate.
-  - intros t b Cur. pose proof (downgrade_plan_result G WF AC NOK t b Cur) as H.
-    destruct (downgrade_plan G t b Cur) as [p|e]; [split; discriminate|]. destruct e; cbn [C02_holds] in H; try contradiction; split; discriminate.
+  - intros t b Cur. pose proof (downgrade_plan_result G WF AC NOK DOther t b Cur eq_refl) as H.
+    destruct (downgrade_plan G t b Cur) as [p|e]; [split; discriminate|]. destruct e; cbn [C02_holds] in H; destruct H as [_ H]; try contradiction; split; discriminate.
 Qed.
 Print Assumptions C15_accepted_commands_terminate.
 
